@@ -535,8 +535,9 @@ Inductive parse_result :=
 | ParseErr (lines : list nat)      (* the line of each syntax error, in order *)
 | ParseFuel.
 
-(* fuel: linear in the number of tokens (the bound is the subject of C03) *)
-Definition parse_fuel (ts : list token) : nat := 6 * length ts + 20.
+(* fuel = depth of the recursive descent: linear in the number of tokens; that this
+   bound is never exhausted is proofs/ParserTotal.v (C03) *)
+Definition parse_fuel (ts : list token) : nat := 24 * length ts + 24.
 
 Definition parse_tokens (ts : list token) : parse_result :=
   match parse_program (parse_fuel ts) [] (mkpst ts [] false) with
